@@ -377,7 +377,7 @@ def expand(task):
         for p, lst in pre.bad.items():
             for clause, detail in lst[:3]:
                 vio.append(mk_violation(p, clause, detail, w, seed, [], ("construct",), "construct", "constructor", pre.info))
-        if w["ids"] in ("given", "featuredict", "given0"):
+        if w["ids"] in ("given", "featuredict", "given0", "givenbig"):
             # valid ids that come with the graph are kept, not recomputed
             g0, _seg0 = worlds.make_graph(w, seed)
             for p, key in (("C04", w["keys"]["track"]), ("C05", w["keys"]["lineage"])):
